@@ -133,7 +133,9 @@ def _check_own(ctx):
             a = leaf_origins(prog, body, t["args"][1], at=b, terminal_only=True)
             ok = elem_ok(a)
             # the iteration is over the 16-entry table
-            ii = [(bb, tt) for bb, tt in f.calls() if (tt.get("callee") or "").endswith(("IntoIterator::into_iter", "]>::iter", "::iter"))]
+            from .util import assert_only_blocks
+            ii = [(bb, tt) for bb, tt in f.calls() if (tt.get("callee") or "").endswith(("IntoIterator::into_iter", "]>::iter", "::iter"))
+                  and bb not in assert_only_blocks(f)]
             ok = ok and len(ii) == 1
             if ok:
                 src = leaf_origins(prog, f, ii[0][1]["args"][0], at=ii[0][0], terminal_only=True)
